@@ -8,6 +8,7 @@
 #pragma once
 
 #include <pika/config.hpp>
+#include <pika/config/verif_hooks.hpp>
 #include <pika/allocator_support/internal_allocator.hpp>
 #include <pika/assert.hpp>
 #include <pika/concurrency/cache_line_data.hpp>
@@ -161,6 +162,7 @@ namespace pika::threads::detail {
                 // Take ownership of the thread object and rebind it.
                 thrd = heap->back();
                 heap->pop_back();
+                PIKA_VERIF_POINT(::pika::verif::tq_reuse, threads::detail::get_thread_id_data(thrd), 0, 0);
                 threads::detail::get_thread_id_data(thrd)->rebind(data);
             }
             else
@@ -180,6 +182,7 @@ namespace pika::threads::detail {
                 else { p = threads::detail::thread_data_stackful::create(data, this, stacksize); }
                 thrd =
                     threads::detail::thread_id_ref_type(p, threads::detail::thread_id_addref::no);
+                PIKA_VERIF_POINT(::pika::verif::tq_create_new, p, 0, 0);
             }
         }
 
@@ -198,6 +201,7 @@ namespace pika::threads::detail {
             task_description* task = nullptr;
             while (add_count-- && addfrom->new_tasks_.pop(task, steal))
             {
+                PIKA_VERIF_POINT(::pika::verif::tq_add_new, this, addfrom != this ? 1 : 0, 0);
 #ifdef PIKA_HAVE_THREAD_QUEUE_WAITTIME
                 if (get_maintain_queue_wait_times_enabled())
                 {
@@ -300,6 +304,7 @@ namespace pika::threads::detail {
         void recycle_thread(threads::detail::thread_id_type thrd)
         {
             std::ptrdiff_t stacksize = threads::detail::get_thread_id_data(thrd)->get_stack_size();
+            PIKA_VERIF_POINT(::pika::verif::tq_recycle, threads::detail::get_thread_id_data(thrd), 0, 0);
 
             if (stacksize == parameters_.small_stacksize_) { thread_heap_small_.push_back(thrd); }
             else if (stacksize == parameters_.medium_stacksize_)
@@ -670,6 +675,7 @@ namespace pika::threads::detail {
 
             // do not execute the work, but register a task description for
             // later thread creation
+            PIKA_VERIF_POINT(::pika::verif::tq_stage, this, 0, 0);
             ++new_tasks_count_.data_;
 
             task_description* td = task_description_alloc_.allocate(1);
@@ -776,6 +782,7 @@ namespace pika::threads::detail {
             {
                 thrd.reset(next_thrd, false);    // do not addref!
                 --work_items_count_.data_;
+                PIKA_VERIF_POINT(::pika::verif::tq_get_next, next_thrd, steal ? 1 : 0, 0);
                 return true;
             }
 #endif
@@ -785,6 +792,7 @@ namespace pika::threads::detail {
         /// Schedule the passed thread
         void schedule_thread(threads::detail::thread_id_ref_type thrd, bool other_end = false)
         {
+            PIKA_VERIF_POINT(::pika::verif::tq_schedule, threads::detail::get_thread_id_data(thrd), other_end ? 1 : 0, 0);
             ++work_items_count_.data_;
 #ifdef PIKA_HAVE_THREAD_QUEUE_WAITTIME
             using namespace std::chrono;
@@ -804,6 +812,7 @@ namespace pika::threads::detail {
         void destroy_thread(threads::detail::thread_data* thrd)
         {
             PIKA_ASSERT(&thrd->get_queue<thread_queue>() == this);
+            PIKA_VERIF_POINT(::pika::verif::tq_destroy, thrd, 0, 0);
 
 #ifdef PIKA_HAVE_THREAD_STACK_MMAP
             terminated_items_.push(thrd);
